@@ -151,6 +151,9 @@ def _migrate_csv_to_rules(csv_file: str, config_dir: str, backup: bool = True,
         # way load_config reads it: the text 'merchants_file:' in a comment or a longer key is not
         # a setting, and neither is an empty one
         settings_path = os.path.join(config_dir, settings_file)
+        # load_config resolves merchants_file against the budget directory (the parent of the
+        # config directory), and `tally up <dir>` takes a config directory of any name
+        rules_setting = os.path.basename(os.path.abspath(config_dir)) + '/merchants.rules'
         if os.path.exists(settings_path):
             settings = load_settings(config_dir, settings_file)
             if not (isinstance(settings, dict) and settings.get('merchants_file')):
@@ -165,10 +168,10 @@ def _migrate_csv_to_rules(csv_file: str, config_dir: str, backup: bool = True,
                 with open(tmp_path, 'w', encoding='utf-8', newline='') as f:
                     f.write(settings_text
                             + '\n# Merchant rules file (migrated from CSV)\n'
-                            + 'merchants_file: config/merchants.rules\n')
+                            + f'merchants_file: {rules_setting}\n')
                 os.replace(tmp_path, settings_path)
                 print(f"  {C.GREEN}✓{C.RESET} Updated: config/{settings_file}")
-                print(f"      Added merchants_file: config/merchants.rules")
+                print(f"      Added merchants_file: {rules_setting}")
 
         # Retire the old file last: until settings.yaml points at the new rules file the
         # CSV is what the budget classifies with, so it must stay in place until then
